@@ -160,6 +160,41 @@ pub fn wl_c13(seed: u64, tier: &str) -> Vec<Vec<Value>> {
         }
         sessions.push(std::mem::replace(&mut ops, vec![]));
     }
+    // consecutive calls whose (message, tag) pairs concatenate to the same bytes with the boundary in
+    // another place, and pairs that differ only in the requested length / count
+    for x in XS13.iter() {
+        let is_xmd = x.starts_with("xmd");
+        let all = r.bytes(40);
+        let mut ops2 = vec![];
+        for cut in [20usize, 21, 19, 20, 0, 40, 20].iter() {
+            let (m, d) = (&all[..*cut], &all[*cut..]);
+            ops2.push(json!({"op": "h2f", "f": "Fq", "x": x, "msg": bytes_to_j(m), "dst": bytes_to_j(d), "count": 2, "cls": "shifted-boundary"}));
+            ops2.push(json!({"op": if is_xmd {"xmd"} else {"xof"}, "x": x, "msg": bytes_to_j(m), "dst": bytes_to_j(d), "len": 64, "cls": "shifted-boundary"}));
+        }
+        for (f, c) in [("Fr", 2usize), ("Fr", 3), ("Fq2", 1), ("Fq", 2), ("Fq", 1)].iter() {
+            ops2.push(json!({"op": "h2f", "f": f, "x": x, "msg": bytes_to_j(&all[..20]), "dst": bytes_to_j(&all[20..]), "count": c, "cls": "same-input-other-count"}));
+        }
+        sessions.push(ops2);
+    }
+    // a stand-in hash with structured digests (zero words, all ones, ...): the reduction stage sees blocks
+    // of every shape through the real pipeline
+    {
+        let mut ops2 = vec![];
+        for i in 0..(if thorough { 400 } else { 60 }) {
+            let ml = r.below(40) as usize;
+            let dl = 1 + r.below(30) as usize;
+            let f = ["Fq", "Fr", "Fq2"][i % 3];
+            ops2.push(json!({"op": "h2f", "f": f, "x": "xmd-toy", "msg": bytes_to_j(&r.bytes(ml)), "dst": bytes_to_j(&r.bytes(dl)),
+                             "count": 1 + (i % 3), "cls": "structured-digest"}));
+            if i % 5 == 0 {
+                ops2.push(json!({"op": "xmd", "x": "xmd-toy", "msg": bytes_to_j(&r.bytes(ml)), "dst": bytes_to_j(&r.bytes(dl)), "len": 96, "cls": "structured-digest"}));
+            }
+            if ops2.len() >= 20 {
+                sessions.push(std::mem::replace(&mut ops2, vec![]));
+            }
+        }
+        sessions.push(ops2);
+    }
     // from_okm / from_ro on chosen blocks
     let fq = fq_info();
     let fr = fr_info();
@@ -267,6 +302,36 @@ pub fn wl_c06(seed: u64, tier: &str) -> Vec<Vec<Value>> {
                 let mode = if (i + k) % 2 == 0 { "nu" } else { "ro" };
                 sessions.push(vec![json!({"op": "h2c", "g": g, "x": x, "mode": mode, "msg": bytes_to_j(&r.bytes(*ml)),
                                           "dst": bytes_to_j(&r.bytes(20)), "cls": "long-message"})]);
+            }
+        }
+        // a stand-in hash with structured digests through the whole pipeline
+        {
+            let n = if thorough { 60 } else if *g == "G1" { 24 } else { 6 };
+            let mut ops2 = vec![];
+            for i in 0..n {
+                let ml = r.below(30) as usize;
+                ops2.push(json!({"op": "h2c", "g": g, "x": "xmd-toy", "mode": if i % 2 == 0 { "ro" } else { "nu" },
+                                 "msg": bytes_to_j(&r.bytes(ml)), "dst": bytes_to_j(&r.bytes(12)), "cls": "structured-digest"}));
+                if ops2.len() >= (if *g == "G1" { 6 } else { 2 }) {
+                    sessions.push(std::mem::replace(&mut ops2, vec![]));
+                }
+            }
+            sessions.push(ops2);
+        }
+        // consecutive calls whose message / tag boundary moves (same concatenation)
+        {
+            let all = r.bytes(30);
+            for x in XS.iter() {
+                let mut ops2 = vec![];
+                for cut in [15usize, 16, 15, 14].iter() {
+                    ops2.push(json!({"op": "h2c", "g": g, "x": x, "mode": "nu", "msg": bytes_to_j(&all[..*cut]), "dst": bytes_to_j(&all[*cut..]), "cls": "shifted-boundary"}));
+                }
+                if *g == "G1" || thorough {
+                    sessions.push(ops2);
+                } else {
+                    ops2.truncate(2);
+                    sessions.push(ops2);
+                }
             }
         }
         // the same (msg, dst) through every suite back to back (history independence)
